@@ -62,8 +62,13 @@ def _converting(h: ast.ExceptHandler) -> bool:
     return True
 
 
-def rule_only_input_error(ck):
-    fi = ck.func(HU, PBA)
+def rule_only_input_error(ck, fi=None, depth=0):
+    from ..x_resolve import callee, in_annotation
+    top = fi is None
+    if fi is None:
+        fi = ck.func(HU, PBA)
+    else:
+        ck.use(fi)
     pm = q.parent_map(fi.node)
     facts = must_facts(fi.cfg)
     n = 0
@@ -88,7 +93,8 @@ def rule_only_input_error(ck):
 
     # 1. handlers: every handler of the function catches Exception and converts
     tries = [t for t in q.walk_body(fi.node) if isinstance(t, ast.Try)]
-    ck.floor("C30.only-input-error", len(tries), 1, "try statements in parse_body_arguments")
+    if top:
+        ck.floor("C30.only-input-error", len(tries), 1, "try statements in parse_body_arguments")
     for t in tries:
         for h in t.handlers:
             n += 1
@@ -96,7 +102,7 @@ def rule_only_input_error(ck):
             ck.ob("C30.only-input-error", fi, h, broad, "the handler around the body parser catches Exception (everything a hostile body can provoke), not a narrower class", construct="except %s" % ",".join(q.handler_names(h)))
             ck.ob("C30.only-input-error", fi, h, _converting(h), "the handler converts to HTTPInputError (its last statement raises HTTPInputError, no early exit)", construct="handler body of except %s" % ",".join(q.handler_names(h)))
         if t.finalbody or t.orelse:
-            raise AnalysisError("C30: try/else/finally in parse_body_arguments (unknown idiom)")
+            raise AnalysisError("C30: try/else/finally in %s (unknown idiom)" % fi.qualname)
 
     # 2. raises
     for r in [x for x in q.walk_body(fi.node) if isinstance(x, ast.Raise)]:
@@ -115,6 +121,8 @@ def rule_only_input_error(ck):
     for nd, x in fi.cfg.find(lambda x: isinstance(x, (ast.Call, ast.Subscript))):
         if in_handler_body(x) is not None:
             # building the message of the converted error: "%s" % e cannot raise for exceptions
+            continue
+        if in_annotation(pm, x):
             continue
         h = handler_for(x)
         protected = h is not None and _converting(h)
@@ -139,7 +147,7 @@ def rule_only_input_error(ck):
                     n += 1
                     ck.ob("C30.only-input-error", fi, x, True, "index 0 of a split()/partition() result always exists")
                     continue
-            raise AnalysisError("C30.only-input-error: unmodelled subscript %s outside a converting handler in %s" % (q.unparse(x), PBA))
+            raise AnalysisError("C30.only-input-error: unmodelled subscript %s outside a converting handler in %s" % (q.unparse(x), fi.qualname))
         name = q.call_attr(x)
         if protected:
             nprot += 1
@@ -150,7 +158,14 @@ def rule_only_input_error(ck):
         elif (isinstance(x.func, ast.Attribute) and name in SAFE_METHODS) or (isinstance(x.func, ast.Name) and name in SAFE_FUNCS) or (q.dotted(x.func) or "").endswith("HTTPInputError"):
             ck.ob("C30.only-input-error", fi, x, True, "%s(..) is in the frozen no-raise table" % name)
         else:
-            raise AnalysisError("C30.only-input-error: unmodelled call %s outside a converting handler in %s" % (q.unparse(x.func), PBA))
+            h2 = callee(ck.repo, fi, x)
+            if h2 is not None and depth < 2 and h2.node is not fi.node:
+                # a private helper of the same module: everything it can raise escapes here, so it is held to the same rule
+                n += rule_only_input_error(ck, h2, depth + 1)
+                continue
+            raise AnalysisError("C30.only-input-error: unmodelled call %s outside a converting handler in %s" % (q.unparse(x.func), fi.qualname))
+    if not top:
+        return n
     ck.floor("C30.only-input-error", nprot, 1, "operations protected by converting handlers")
     # 4. both parsers are reached only from inside converting handlers
     for name in ("parse_qs_bytes", PMF):
@@ -288,23 +303,46 @@ def _roots(nd):
     return _node_roots(nd)
 
 
+def _rejects_content_encoding(ck, cfi, param):
+    """``cfi`` returns normally only when ``param`` is falsy/None or has no Content-Encoding, and its raises are HTTPInputError."""
+    st = path_states(cfi, [param, "%s is None" % param, "'Content-Encoding' in %s" % param], {}, follow_exc=False)
+    ok = satisfied(st, cfi.cfg.exit, [("fact", param, False), ("fact", "%s is None" % param, True), ("fact", "'Content-Encoding' in %s" % param, False)])
+    raises = [r for r in q.walk_body(cfi.node) if isinstance(r, ast.Raise)]
+    return ok is True and bool(raises) and all(_raises_input_error(r) for r in raises)
+
+
 def rule_content_encoding(ck):
+    from ..x_resolve import callee, arg_map
     fi = ck.func(HU, PBA)
     hp = [p for p in fi.params() if p == "headers"]
     ck.need(hp, "parse_body_arguments has no headers parameter")
     h = hp[0]
-    st = path_states(fi, [h, "%s is None" % h, "'Content-Encoding' in %s" % h], {}, follow_exc=True)
+    # calls of a same-module helper that rejects encoded bodies (verified on the helper's own CFG) count as the check
+    rejecting = set()
+    helper_raises = 0
+    for nd, c in fi.cfg.find(lambda x: isinstance(x, ast.Call)):
+        cfi = callee(ck.repo, fi, c)
+        if cfi is None or cfi.node is fi.node:
+            continue
+        mp = arg_map(cfi, c)
+        if not mp:
+            continue
+        ps = [p_ for p_, a in mp.items() if q.dotted(a) == h]
+        if len(ps) == 1 and "Content-Encoding" in q.literal_strs(cfi.node) and _rejects_content_encoding(ck, cfi, ps[0]):
+            rejecting.add(nd.id)
+            helper_raises += 1
+            ck.use(cfi)
+    st = path_states(fi, [h, "%s is None" % h, "'Content-Encoding' in %s" % h], {"rejected": lambda n2: n2.id in rejecting}, follow_exc=False)
     n = 0
     for name in ("parse_qs_bytes", PMF):
         for nd, c in call_sites(fi, name, "." + name):
             n += 1
-            ok = satisfied(st, nd, [("fact", h, False), ("fact", "%s is None" % h, True), ("fact", "'Content-Encoding' in %s" % h, False)])
+            ok = satisfied(st, nd, [("fact", h, False), ("fact", "%s is None" % h, True), ("fact", "'Content-Encoding' in %s" % h, False), ("event", "rejected")])
             ck.ob("C30.content-encoding", fi, c, ok is True, "%s runs only when no Content-Encoding header is present (encoded bodies are rejected, not parsed as garbage)" % name)
     ck.floor("C30.content-encoding", n, 2, "parser calls")
     # and the rejection is an HTTPInputError
     facts = must_facts(fi.cfg)
     rs = [nd for nd in fi.cfg.stmt_nodes(lambda nd: nd.kind == "stmt" and isinstance(nd.ast, ast.Raise)) if holds(facts[nd.id], "'Content-Encoding' in %s" % h, True)]
-    ck.floor("C30.content-encoding", len(rs), 1, "Content-Encoding rejections")
     for r in rs:
         ck.ob("C30.content-encoding", fi, r.ast, _raises_input_error(r.ast), "an encoded body is rejected with HTTPInputError")
 
